@@ -18,7 +18,7 @@ from .values import (VSymSet, V, VInt, VBool, VNone, VStr, VTuple, VBox, VRef, V
                      VFunc, VExc, VMatch, Val, ListCell, SeqCell, DictCell,
                      ObjCell, StreamCell, Unsupported, box, from_py,
                      SeqString, SeqVal, is_concrete_str, concrete_str,
-                     L_len, L_at, list_sort)
+                     L_len, L_at, list_sort, RecField)
 from . import lists
 from .symex import (PathEnd, PyRaise, truth, to_bool, eq, as_int, seq_elem,
                     elem_expr, norm_index, slice_str, unbox_choose, elem_sort)
@@ -165,6 +165,9 @@ def getitem(it, obj, idx):
             it.raise_(IndexError)
     if isinstance(obj, VMatch):
         return match_group(it, obj, idx)
+    from .values import VRecId
+    if isinstance(obj, VRecId):
+        return VBox(RecField(obj.e, S(str(const_key(idx)))))
     raise Unsupported('subscript on %r' % (obj,))
 
 
@@ -1001,6 +1004,7 @@ F_JsonValid = z3.Function('JsonValid', z3.StringSort(), z3.BoolSort())
 F_JsonLoads = z3.Function('JsonLoads', z3.StringSort(), z3.IntSort())
 F_JsonDumps = z3.Function('JsonDumps', z3.IntSort(), z3.StringSort())
 F_JsonIsDict = z3.Function('JsonIsDict', z3.IntSort(), z3.BoolSort())
+F_JsonTooDeep = z3.Function('JsonTooDeep', z3.StringSort(), z3.BoolSort())
 
 
 class VJson(V):
@@ -1024,6 +1028,9 @@ def json_loads(it, args, kwargs):
         pass
     if not ctx.branch(F_JsonValid(s.e)):
         it.raise_(ValueError)
+    if not ctx.branch(z3.Not(F_JsonTooDeep(s.e))):
+        # CPython's recursive decoder gives up on deeply nested documents
+        it.raise_(RecursionError)
     return VJson(F_JsonLoads(s.e))
 
 
@@ -1192,11 +1199,32 @@ def stream_method(it, c, name, args, kwargs):
     raise Unsupported('stream.%s' % name)
 
 
+def flatten_record(ctx, v, prefix=''):
+    cell = ctx.cell(v) if isinstance(v, VRef) else None
+    if not isinstance(cell, DictCell) or cell.sym is not None:
+        raise Unsupported('record list element must be a dict with '
+                          'constant keys')
+    out = []
+    for k, x in cell.items.items():
+        if isinstance(x, VRef):
+            out.extend(flatten_record(ctx, x, prefix + str(k) + '.'))
+        else:
+            out.append((prefix + str(k), x))
+    return out
+
+
 def list_method(it, ref, c, name, args, kwargs):
     ctx = it.ctx
     if name == 'append':
         if isinstance(c, ListCell):
             c.items.append(args[0])
+        elif c.elem == 'rec':
+            rid = ctx.fresh_int('rec')
+            for fname, fval in flatten_record(ctx, args[0]):
+                ctx.assume(RecField(rid, S(fname)) == box(fval))
+            c.e = lists.l_append(ctx, c.e, rid)
+            ctx.ghost.setdefault('appended_records', []).append(
+                (rid, args[0]))
         else:
             c.e = lists.l_append(ctx, c.e, elem_expr(c.elem, args[0]))
         return VNone
